@@ -81,7 +81,9 @@ def gen_pipelines(rng, tier, npipes=None, big=False, pool=None, p_enc=0.4):
                                           97, 128, 191, 1000, 100000])
 
         r['stream'] = rng.weighted([(6, 'sim'), (2, 'bytesio'),
-                                    (2, 'buffered')])
+                                    (2, 'buffered')] if rng.chance(0.85)
+                                   else [(1, 'minimal'), (1, 'gzip'),
+                                         (1, 'mmap'), (1, 'spooled')])
 
         if r['stream'] == 'buffered':
             r['buf'] = rng.choice([1, 2, 7, 64, 8192])
